@@ -1,3 +1,5 @@
+#[cfg(jgilchrist_tcheran_verif)]
+use crate::verif_shim as std;
 use std::sync::{Condvar, Mutex};
 
 /// A `LockLatch` starts as false and eventually becomes true. You can block
@@ -37,5 +39,12 @@ impl LockLatch {
     pub fn reset(&self) {
         *self.m.lock().unwrap() = false;
         self.v.notify_all();
+    }
+}
+
+#[cfg(jgilchrist_tcheran_verif)]
+impl LockLatch {
+    pub fn verif_is_set(&self) -> bool {
+        *self.m.lock().unwrap()
     }
 }
